@@ -2,9 +2,9 @@ CONSTANTS
  Confs <- MCConfs
  FixWaitErr = FALSE
  Reduce = FALSE
- MCShapes = {"schema1", "inline", "dtag"}
+ MCShapes = {"schema1", "inline", "empty"}
  MCPairs = {"tworeg"}
- MCOpts <- MCOptsCore
+ MCOpts <- MCOptsForce
  MCFeats <- MCFeatsDefault
  MCInit = "empty"
  MCTag0 = {"stale"}
